@@ -4,6 +4,7 @@ Model: DTML/Quote.lean.
 -/
 import DTML.Quote
 import DTML.Lemmas.IBlock
+import DTML.Lemmas.VarInit
 set_option linter.unusedVariables false
 namespace DTML.Props.C03
 open DTML.Quote
@@ -170,5 +171,63 @@ character from the test in the source makes this theorem false. -/
 theorem gen_simple_var_is_model (env : Render.Env) (fuel : Nat) (src : Render.Src) (hq : Bool) (st : Render.St) :
     GenRender.vBlockGen env fuel src hq st = Render.fetchVar env (fuel + 2) src hq none st :=
   Lemmas.IBlock.vBlock_eq env fuel src hq st
+
+/-! ### Which form a dtml-var tag compiles to: `Var.__init__`, translated from the source on every run
+
+`GenVarInit` is regenerated on every run by translating `DT_Var.Var.__init__` statement by statement
+(harness/trans_varinit.py): the removal of the prefix `var `, the call of `parse_params` with its table, the filter of
+the modifiers, `name_param`, and the if-chain that stores `simple_form` (`len(args) == 1 and fmt == 's'`;
+`len(args) == 2 and fmt == 's' and 'html_quote' in args`).  The entity syntax `&dtml-x;` reaches this constructor with
+` html_quote` appended to its arguments by the scanner (`C01.gen_html_scanner_*`), so it is the second case. -/
+
+/-- **The constructor of the model is the constructor of the source**: `Var.__init__` up to the choice of the form
+(prefix, attribute grammar over the table of the call, name / expr validation with the flag of the call) computes
+`Parse.checkSimple .var` - same errors, same attribute dictionary, same target, same expressions handed to `Eval`. -/
+theorem gen_var_init_is_checkSimple (args fmt : Scan.Text) :
+    (GenVarInit.varInitGen args fmt).map
+      (fun r => ({ params := r.args, target := some r.target, exprs := r.exprs } : Parse.Built)) =
+    Parse.checkSimple .var args := by
+  have hs : GenVarInit.stripGen args = (if "var ".toList.isPrefixOf args then args.drop 4 else args) := by
+    unfold GenVarInit.stripGen
+    have : args.take 4 = "var ".toList ↔ "var ".toList.isPrefixOf args = true :=
+      Lemmas.VarInit.take_eq_iff_isPrefixOf "var ".toList args
+    by_cases h : "var ".toList.isPrefixOf args = true
+    · rw [if_pos h, if_pos (this.mpr h)]
+    · rw [if_neg h, if_neg (fun h' => h (this.mp h'))]
+  have ht : GenVarInit.varTable = Gen.varParams := by decide
+  unfold GenVarInit.varInitGen Parse.checkSimple
+  simp only [hs, ht, GenVarInit.allowExprGen]
+  cases Parse.parseParams Gen.varParams (if "var ".toList.isPrefixOf args then args.drop 4 else args) with
+  | error e => rfl
+  | ok p =>
+    cases h : Parse.nameParam p true with
+    | error e => simp [h, Except.map, bind, Except.bind]
+    | ok r => obtain ⟨t, es⟩ := r; simp [h, Except.map, bind, Except.bind, pure, Except.pure]
+
+/-- **The form the source chooses is the one the interpreter model renders**: on the attribute dictionary of the tag a
+`.var src hq missing null` cell stands for (`Lemmas.VarInit.blkParams`), the if-chain of `Var.__init__` stores no simple
+form exactly when `missing=` or `null=` is written (`renderBlk` then takes the path of `Var.render`), the quoting form
+`('v', x, 'h')` when `html_quote` is written or implied by the entity syntax, the plain form `('v', x)` otherwise. -/
+theorem gen_var_form_is_interp (isExpr : Bool) (target : Scan.Text) (hq : Bool) (missing null : Option Scan.Text) :
+    GenVarInit.formGen (Lemmas.VarInit.blkParams isExpr target hq missing null) "s".toList =
+      if missing.isSome || null.isSome then 0 else if hq then 2 else 1 := by
+  cases isExpr <;> cases hq <;> cases missing <;> cases null <;> rfl
+
+/-- a tag for which the source stores a simple form is rendered by the model as the `'v'` cell - `fetchVar`, which
+`gen_simple_var_is_model` proves to be the `'v'` branch of `render_blocks_` -/
+theorem gen_var_simple_form_is_fetch (env : Render.Env) (fuel : Nat) (src : Render.Src) (isExpr : Bool)
+    (target : Scan.Text) (hq : Bool) (missing null : Option Scan.Text) (st : Render.St)
+    (h : GenVarInit.formGen (Lemmas.VarInit.blkParams isExpr target hq missing null) "s".toList ≠ 0) :
+    Render.renderBlk env (fuel + 1) (.var src hq missing null) st = Render.fetchVar env fuel src hq none st := by
+  rw [gen_var_form_is_interp] at h
+  cases missing with
+  | some m => simp at h
+  | none =>
+    cases null with
+    | some m => simp at h
+    | none => cases src <;> rfl
+
+example : GenVarInit.formGen (Lemmas.VarInit.blkParams false ['x'] true none none) "s".toList = 2 := by decide
+example : GenVarInit.formGen (Lemmas.VarInit.blkParams false ['x'] true (some []) none) "s".toList = 0 := by decide
 
 end DTML.Props.C03
